@@ -54,7 +54,7 @@ fn read_path<'a>(scanner: &mut Scanner<'a>) -> ParseResult<Option<&'a str>> {
 
 /// Parse a `.d` file into `Deps`.
 pub fn parse<'a>(scanner: &mut Scanner<'a>) -> ParseResult<SmallMap<&'a str, Vec<&'a str>>> {
-    let mut result = SmallMap::default();
+    let mut result: SmallMap<&'a str, Vec<&'a str>> = SmallMap::default();
     loop {
         while matches!(scanner.peek(), ' ' | '\n') {
             scanner.next();
@@ -75,7 +75,11 @@ pub fn parse<'a>(scanner: &mut Scanner<'a>) -> ParseResult<SmallMap<&'a str, Vec
         while let Some(p) = read_path(scanner)? {
             deps.push(p);
         }
-        result.insert(target, deps);
+        // A target may be listed more than once; its prerequisites accumulate.
+        match result.iter_mut().find(|(t, _)| *t == target) {
+            Some((_, prev)) => prev.extend(deps),
+            None => result.insert(target, deps),
+        }
     }
     scanner.expect('\0')?;
 
